@@ -70,7 +70,7 @@ def check_slot(item):
     m = machine(cls_name, mach, tracer)
     st = Stats()
     res = {'obligations': 0, 'discharged': 0, 'violations': [], 'inconclusive': [], 'samples': [], 'nontrivial': 0}
-    cmio = cls_name == 'CMIOSimulator'
+    cmio = cls_name.startswith('CMIOSimulator')
 
     def on(p, m, out):
         name = '%s %s %s%s' % (cls_name, mach, harness.item_name(slot), ' tracer' if tracer else '')
@@ -301,7 +301,7 @@ def replay(case):
     if kind == 'interrupt':
         import skoolkit.simulator as sm
         import skoolkit.cmiosimulator as cm
-        cls = {'Simulator': sm.Simulator, 'CMIOSimulator': cm.CMIOSimulator}[case['cls']]
+        cls = {'Simulator': sm.Simulator, 'CMIOSimulator': cm.CMIOSimulator, 'CMIOSimulator-rec': cm.CMIOSimulator}[case['cls']]
         memory = simcheck.mem_list(mem, default)
         mm = sh.MACHINES[case['machine']]
         sim = cls(memory, config={'frame_duration': mm['frame'], 'int_active': mm['int_active']})
@@ -335,7 +335,7 @@ def replay(case):
 
 
 def _cmp_real(case, got, memory, mem, exp, post, fmask, default=0):
-    cmio = case.get('cls') == 'CMIOSimulator'
+    cmio = str(case.get('cls')).startswith('CMIOSimulator')
     bad = []
     for i in range(30):
         if i == 29 and cmio:
@@ -372,10 +372,14 @@ def main():
     items += [('Simulator', '48K', True) + s for s in slots if s in IO_SLOTS]
     items += [('interrupt', 'Simulator', '48K')]
     items += [('table', s[0]) for s in table_specs()]
+    # the contended simulator's closures are separate hand-written code: quick runs them with contend() replaced by a recorder
+    # (their non-timing effects and T >= plain T), thorough with the real contend as well
+    items += [('CMIOSimulator-rec', '48K', False) + s for s in slots]
+    items += [('CMIOSimulator-rec', '48K', True) + s for s in slots if s in IO_SLOTS]
+    items += [('interrupt', 'CMIOSimulator', '48K')]
     if args.tier == 'thorough':
         items += [('CMIOSimulator', '48K', False) + s for s in slots]
         items += [('CMIOSimulator', '48K', True) + s for s in slots if s in IO_SLOTS]
-        items += [('interrupt', 'CMIOSimulator', '48K')]
     if args.only:
         items = [i for i in items if args.only in harness.item_name(i)]
     # table translation is validated (every entry, concrete) once in the parent
@@ -391,7 +395,7 @@ def main():
         PROP, args,
         functions=['skoolkit.simulator.Simulator.* closure factories via create_opcodes (all 7 dispatch tables)',
                    'skoolkit.simulator.Simulator.accept_interrupt', 'skoolkit.simtables (all tables, as formulas derived from the source)',
-                   'skoolkit.simulator.R1/R2/OFFSETS/JR_OFFSETS'] + (['skoolkit.cmiosimulator.CMIOSimulator.* (thorough)'] if args.tier == 'thorough' else []),
+                   'skoolkit.simulator.R1/R2/OFFSETS/JR_OFFSETS'] + ['skoolkit.cmiosimulator.CMIOSimulator.* closures (contend() recorded in quick, real in thorough)'],
         bounds={'instructions_per_obligation': 1, 'state': 'all 30 register slots and all 65536 memory cells symbolic, constrained only by the state invariant',
                 'slots': '1786 instruction slots = 1792 table slots minus the 6 prefix dispatchers, which every prefixed slot runs through',
                 'repeating block instructions': 'one iteration per step', 'outside': 'instruction sequences (by induction over single steps with C08), '
